@@ -175,13 +175,22 @@ def build_pipeline(units, palette, geo, tmp):
     return groups, (300.0 if dy else 280.0)
 
 
-def run_schedule(units, palette, geo, start, times, nd, tmp):
-    """one real exposure -> pixel cube (time, y, x) and the time labels"""
+def run_schedule(units, palette, geo, start, times, nd, tmp, via="ctor"):
+    """one real exposure -> pixel cube (time, y, x) and the time labels.
+    via: how the schedule reaches the Readout - constructor, the `times` setter of an existing readout, or replace()"""
     import pyxel
 
     groups, temperature = build_pipeline(units, palette, geo, tmp)
     det = mk.detector("ccd", geo[0], geo[1], temperature=temperature)
-    res = pyxel.run_mode(mk.exposure(times, nd, start), det, mk.pipeline(groups), with_inherited_coords=True)
+    if via == "ctor" or len(times) < 2:
+        exp = mk.exposure(times, nd, start)
+    else:
+        exp = mk.exposure([times[-1]], nd, start)
+        if via == "setter":
+            exp.readout.times = list(times)
+        else:
+            exp.readout = exp.readout.replace(times=list(times))
+    res = pyxel.run_mode(exp, det, mk.pipeline(groups), with_inherited_coords=True)
     node = res["/bucket"] if "bucket" in res.children else res
     px = node["pixel"]
     return np.asarray(px.transpose("time", "y", "x").values, dtype=float), [float(t) for t in px["time"].values]
@@ -237,7 +246,9 @@ def run_case(case):
                         continue
                     code_done = (mode, scale)
                     try:
-                        cube, labels = run_schedule(units, palette, geo, start, times, mode == "nd", tmp)
+                        # the way the schedule is handed over rotates with the partition (all three must be equivalent)
+                        cube, labels = run_schedule(units, palette, geo, start, times, mode == "nd", tmp,
+                                                    via=("ctor", "setter", "replace")[mask % 3])
                         runs += 1
                     except Exception as e:  # noqa: BLE001
                         if ("raised",) + code_done not in seen:
